@@ -8,6 +8,7 @@ from __future__ import annotations
 import numpy as np
 
 NP_MODE = {"constant": "constant", "reflect": "reflect", "replicate": "edge"}
+NP_DTYPE = {"float32": np.float32, "float64": np.float64, "int64": np.int64, "int32": np.int32}
 
 
 def make_x(N, T, trail, base=1, dtype="float32"):
@@ -15,7 +16,7 @@ def make_x(N, T, trail, base=1, dtype="float32"):
     shape = (N, T) + tuple(trail)
     n = int(np.prod(shape)) if shape else 1
     x = np.arange(base, base + n, dtype=np.int64).reshape(shape)
-    return x.astype(np.float32 if dtype == "float32" else np.int64)
+    return x.astype(NP_DTYPE[dtype])
 
 
 def pad_row(seq, l, r, mode, value):
